@@ -107,6 +107,14 @@ static void a_compare(struct ast *s, const char *what)
 			a_fail(s, "lookup-wrong-value", "%s: lookup(k%d) value %d, model %d", what, k, (int)(intptr_t)v, s->mv[mi]);
 			return;
 		}
+		/* the other lookup entry points agree: by entry, by entry with a precomputed hash, as a membership test */
+		struct lh_entry *e1 = lh_table_lookup_entry(t, &key_ids[k]);
+		struct lh_entry *e2 = lh_table_lookup_entry_w_hash(t, &key_ids[k], lh_get_hash(t, &key_ids[k]));
+		if (e1 != e2 || !!e1 != !!found || (e1 && lh_entry_v(e1) != v) || !!lh_table_lookup_ex(t, &key_ids[k], NULL) != !!found)
+		{
+			a_fail(s, "lookup-entry-points-differ", "%s: lookup_ex, lookup_entry and lookup_entry_w_hash disagree on k%d", what, k);
+			return;
+		}
 		if (!found && v != NULL)
 		{
 			a_fail(s, "lookup-miss-leaves-value", "%s: failed lookup did not clear *v", what);
